@@ -238,3 +238,36 @@ Proof.
   destruct He as (Hpk & _ & _ & _ & Hb). split; [symmetry; exact Hpk|]. exact (perm_equiv_covers elem_equiv _ _ Hb).
 Qed.
 End ImageStage.
+
+(* the reading determines the whole request (path / query / body, as lists) *)
+Theorem client_meets_unique_request svc d cm cm' : NoDup (df_req d) ->
+  client_meets svc d cm -> client_meets svc d cm' -> cm_req cm = cm_req cm'.
+Proof.
+  intros Hnd M M'.
+  assert (Hp : r_path (cm_req cm) = r_path (cm_req cm')) by (apply (client_meets_unique_path svc d cm cm' Hnd M M')).
+  destruct (meets_order _ _ _ M) as (_ & Kq & Kb). destruct (meets_order _ _ _ M') as (_ & Kq' & Kb').
+  destruct (N.eq_dec (df_verb d) GET) as [Hg|Hg].
+  - destruct (meets_get _ _ _ M Hg) as [Hb Hq]. destruct (meets_get _ _ _ M' Hg) as [Hb' Hq'].
+    assert (Hqq : r_query (cm_req cm) = r_query (cm_req cm')).
+    { apply (kept_same (df_req d) Hnd); [exact Kq|exact Kq'|]. intro p. rewrite Hq, Hq'. reflexivity. }
+    destruct (cm_req cm) as [p q b], (cm_req cm') as [p' q' b']. cbn in *. congruence.
+  - destruct (meets_body _ _ _ M Hg) as [Hq (b & Hb & Hm)]. destruct (meets_body _ _ _ M' Hg) as [Hq' (b' & Hb' & Hm')].
+    assert (Hbb : b = b').
+    { apply (kept_same (df_req d) Hnd); [exact (Kb b Hb)|exact (Kb' b' Hb')|]. intro p. rewrite Hm, Hm'. reflexivity. }
+    destruct (cm_req cm) as [p q bo], (cm_req cm') as [p' q' bo']. cbn in *. congruence.
+Qed.
+
+(* ... hence, for a declaration without duplicate properties, the client method of the model is THE client method
+   that meets the declaration (up to the list-request part, which PipelineWalkSpecProofs.v reads separately) *)
+Corollary declared_client_is_the_one (to_snake : str -> str) g svc d cm :
+  wf_decl to_snake (df_decl d) -> NoDup (df_req d) -> client_meets svc d cm ->
+  cm_service cm = cm_service (declared_client g svc d) /\ cm_name cm = cm_name (declared_client g svc d)
+  /\ cm_verb cm = cm_verb (declared_client g svc d) /\ cm_path cm = cm_path (declared_client g svc d)
+  /\ cm_req cm = cm_req (declared_client g svc d) /\ cm_resp cm = cm_resp (declared_client g svc d).
+Proof.
+  intros Hw Hnd M. pose proof (declared_client_meets to_snake g svc d Hw) as M'.
+  destruct (client_meets_unique_path svc d cm _ Hnd M M') as (_ & Hpath & Hverb & Hresp).
+  split; [rewrite (meets_service _ _ _ M), (meets_service _ _ _ M'); reflexivity|].
+  split; [rewrite (meets_name _ _ _ M), (meets_name _ _ _ M'); reflexivity|].
+  split; [exact Hverb|]. split; [exact Hpath|]. split; [exact (client_meets_unique_request svc d cm _ Hnd M M')|exact Hresp].
+Qed.
